@@ -9,7 +9,10 @@ import pickle
 
 _DEF_BLOB = None
 
-logging.getLogger("pdb2pqr").setLevel(logging.CRITICAL)
+_LG = logging.getLogger("pdb2pqr")
+_LG.setLevel(logging.CRITICAL)
+_LG.propagate = False
+_LG.addHandler(logging.NullHandler())
 
 
 def definition():
